@@ -367,7 +367,12 @@ class _GitFile(IO[bytes]):
         """
         if self._closed:
             return
-        self._file.close()
+        try:
+            self._file.close()
+        except OSError:
+            # Buffered data that cannot be written out (e.g. disk full) is
+            # being discarded anyway; still remove the lock file below.
+            pass
         try:
             os.remove(self._lockfilename)
             self._closed = True
@@ -390,14 +395,16 @@ class _GitFile(IO[bytes]):
         """
         if self._closed:
             return
-        self._file.flush()
-        if self._fsync:
-            os.fsync(self._file.fileno())
-        self._file.close()
-        # Adjust before the rename, so the file is never visible at the
-        # final path with the wrong permissions.
-        adjust_shared_perm(self._lockfilename, self._shared_perm)
         try:
+            # Any failure from here on (flush, fsync, chmod, rename) discards
+            # the lock file in the finally clause below.
+            self._file.flush()
+            if self._fsync:
+                os.fsync(self._file.fileno())
+            self._file.close()
+            # Adjust before the rename, so the file is never visible at the
+            # final path with the wrong permissions.
+            adjust_shared_perm(self._lockfilename, self._shared_perm)
             if getattr(os, "replace", None) is not None:
                 os.replace(self._lockfilename, self._filename)
             else:
